@@ -47,7 +47,9 @@ FineTableOK == /\ \A i \in 1..(Len(FineTable) - 1) : FineTable[i][1] < FineTable
                /\ <<0, "0.0">> \in Range(FineTable) /\ <<FMAXHZ, "5000000.0">> \in Range(FineTable)
 OPEN   == -98
 CLOSE  == -99
-IsNum(t) == t # OPEN /\ t # CLOSE
+ABSENT == -97               \* the one-token structure <<ABSENT>>: no coordinates given at all (no key / argument / attribute)
+IsNum(t) == t # OPEN /\ t # CLOSE /\ t # ABSENT
+Missing(s) == s = <<ABSENT>>
 
 KindDepth(k) ==
     CASE k = "TimeStamp" -> 0
@@ -86,7 +88,7 @@ DSeq(s, lo, hi, base) ==
          IN  left \o DSeq(s, mid + 1, hi, left[Len(left)])
 Depths(s) == DSeq(s, 1, Len(s), 0)
 \* s is exactly one node (a number, or one bracketed list): every proper prefix is inside the root bracket
-WellFormed(s) == Len(s) >= 1 /\ LET d == Depths(s) IN d[Len(s)] = 0 /\ s[Len(s)] # OPEN /\ \A j \in 1..(Len(s) - 1) : d[j] >= 1
+WellFormed(s) == Len(s) >= 1 /\ (\A i \in DOMAIN s : s[i] # ABSENT) /\ LET d == Depths(s) IN d[Len(s)] = 0 /\ s[Len(s)] # OPEN /\ \A j \in 1..(Len(s) - 1) : d[j] >= 1
 IsScalar(s) == Len(s) = 1
 IsList(s)   == Len(s) >= 2
 Ord(S) == [k \in 1..Cardinality(S) |-> CHOOSE x \in S : Cardinality({y \in S : y < x}) = k - 1]
@@ -201,7 +203,8 @@ SameKidBag(a, b) == Len(Kids(a)) = Len(Kids(b)) /\ \A x \in Range(Kids(a)) : Kid
 (* a later validator does not run when an earlier one raised.                  *)
 Fail(w) == [ok |-> FALSE, val |-> <<>>, why |-> w]
 Pass(v) == [ok |-> TRUE, val |-> v, why |-> ""]
-TypeLayer(k, s) == IF Typed(s, KindDepth(k)) THEN Pass(s) ELSE Fail("type")
+TypeLayer(k, s) == IF Missing(s) THEN Fail("missing")           \* coordinates: Field(...) -- required, no default
+                   ELSE IF Typed(s, KindDepth(k)) THEN Pass(s) ELSE Fail("type")
 
 \* `for time, frequency in v:` -- Python's unpacking raises ValueError unless the point has 2 values
 PointFault(p) == IF Arity(p) # 2 THEN "unpack"
